@@ -291,6 +291,14 @@ func runModels(prop, tier, replay string) int {
 	}
 
 	defs, st := EnumerateDefs(k, depth, "D")
+	// container stacks of length 2-3 (quick) / 3 (thorough: length 2 is already in the depth-2 grammar)
+	minStack := 2
+	if depth >= 2 {
+		minStack = 3
+	}
+	stacks := EnumerateStackDefs("K", minStack, 3)
+	r.Extra["container_stack_definitions"] = len(stacks)
+	defs = append(defs, stacks...)
 	r.Extra["definitions"] = len(defs)
 	r.Extra["choice_points"] = st.Points
 	r.Extra["bound_completed"] = fmt.Sprintf("k<=%d keywords per leaf, context chains of length <=%d, one deviation per instance", k, depth)
